@@ -320,11 +320,13 @@ def model_b(ctx, module, cfg, recs, *, env=None, timeout=1200, chunk=None, name=
 
 
 # -------------------------------------------------------------------- Apalache
-def apalache(ctx, tla_text, modname, *, inv="Ok", timeout=900, name=None):
+def apalache(ctx, tla_text, modname, *, inv="Ok", timeout=900, name=None, extra_files=None):
     """Check a generated, typed observation module with Apalache (--length=0).
     Returns the set of failing observation indices found in the counter-example (empty = all hold)."""
     d = tempfile.mkdtemp(prefix="apa-", dir=ctx.scratch)
     open(os.path.join(d, modname + ".tla"), "w").write(tla_text)
+    for fn, txt in (extra_files or {}).items():
+        open(os.path.join(d, fn), "w").write(txt)
     cmd = ["apalache-mc", "check", "--length=0", "--inv=" + inv, "--out-dir=" + os.path.join(d, "out"),
            "--run-dir=" + os.path.join(d, "run"), modname + ".tla"]
     t = time.time()
